@@ -120,6 +120,10 @@ def _ring_stats(cases, impl, stats, sizes):
                 stats["ring_dumps"] += 1
 
 
+BATCH_RING = 600
+BATCH_BB = 130
+
+
 def run(ctx):
     res = C.Result()
     exe = R.build()
@@ -129,100 +133,133 @@ def run(ctx):
     thorough = ctx.tier == "thorough" or not ctx.proof_ok
     n_ring = 4000 if thorough else 520
     n_bb = 1000 if thorough else 110
-
-    # ---------------------------------------------------------------- ring scripts
-    rcases = ring_corpus()
-    n_rc = len(rcases)
-    kinds = {"ring_corpus": n_rc, "ring_random": 0, "ring_long": 0, "bb_corpus": 0, "bb_random": 0, "bb_long": 0}
-    for i in range(n_ring):
-        disciplined = (i % 4 != 3)
-        if i % 30 == 29:
-            nops = 400
-            kinds["ring_long"] += 1
-        else:
-            nops = rng.choice([8, 15, 30, 60, 100])
-            kinds["ring_random"] += 1
-        rcases.append(R.gen_case(rng, True, nops, seqbase=i * 1000, disciplined=disciplined))
-    impl, mod = R.execute(rcases, exe, model)
-    R.cleanup_shm()
     stats = {"ring_ops": 0, "writes_ok": 0, "writes_failed_oversize": 0, "reads_ok": 0, "reads_enobufs": 0, "reads_empty": 0,
              "peeks": 0, "reclaims": 0, "ring_dumps": 0, "sem_mode_cases": 0, "nosem_cases": 0,
              "bb_log_calls": 0, "bb_fallback_notices": 0, "bb_dumps": 0, "bb_records_read_back": 0, "bb_gave_up_oversize": 0}
     sizes = {}
-    _ring_stats(rcases, impl, stats, sizes)
-    for ci, case in enumerate(rcases):
-        lines = impl[ci][0]
-        nw = sum(1 for l in lines if l.startswith("r ") and False)
-        ops, _ = R.parse_ops(case, lines)
-        w_ok = sum(1 for op, r, q in ops if op[0] in "WA" and r and int(r.split()[1]) >= 0)
-        back = sum(1 for op, r, q in ops if (op[0] == "R" and r and int(r.split()[1]) >= 0) or op[0] == "D")
-        res.add_case(("ring",) + tuple(case), w_ok >= 3 and back >= 1)
-        v = R.judge(case, impl[ci], mod[ci], W.monitor_ring)
-        if v is None:
-            res.traces_validated += 1
-            continue
-        kind = v[0]
+    maxlines = {}
+    samples = []
 
-        def fails(sub, kind=kind):
-            if not sub or not sub[0].startswith("O "):
-                return False
-            im, mo = R.execute([sub], exe, model)
-            j = R.judge(sub, im[0], mo[0], W.monitor_ring)
-            return j is not None and j[0] == kind
-        small = C.shrink_list(case, fails, budget=60) if len(res.violations) < 2 else case
-        im, mo = R.execute([small], exe, model)
-        j = R.judge(small, im[0], mo[0], W.monitor_ring) or v
-        res.violation(j[0], j[1], {"stage": "ring", "script": small, "shrunk_from_ops": len(case),
-                                   "impl_out": [l[:300] for l in im[0][0]], "model_out": [l[:300] for l in mo[0][0]],
-                                   "detail": j[2], "replay_cmd": "./check C11 --replay <this file>"})
-        if len(res.violations) >= 6:
+    # ---------------------------------------------------------------- ring scripts (in batches: outputs are large)
+    rcorpus = ring_corpus()
+    kinds = {"ring_corpus": len(rcorpus), "ring_random": 0, "ring_long": 0, "bb_corpus": 0, "bb_random": 0, "bb_long": 0}
+    samples += [{"script": [l[:120] for l in c[:10]]} for c in rcorpus[:1]]
+
+    def ring_batches():
+        batch = list(rcorpus)
+        for i in range(n_ring):
+            disciplined = (i % 4 != 3)
+            if i % 30 == 29:
+                nops = 400
+                kinds["ring_long"] += 1
+            else:
+                nops = rng.choice([8, 15, 30, 60, 100])
+                kinds["ring_random"] += 1
+            batch.append(R.gen_case(rng, True, nops, seqbase=i * 1000, disciplined=disciplined))
+            if len(batch) >= BATCH_RING:
+                yield batch
+                batch = []
+        if batch:
+            yield batch
+
+    stop = False
+    for bi, rcases in enumerate(ring_batches()):
+        if bi == 0:
+            samples += [{"script": [l[:120] for l in c[:10]]} for c in rcases[len(rcorpus):len(rcorpus) + 2]]
+        impl, mod = R.execute(rcases, exe, model)
+        _ring_stats(rcases, impl, stats, sizes)
+        for ci, case in enumerate(rcases):
+            ops, _ = R.parse_ops(case, impl[ci][0])
+            w_ok = sum(1 for op, r, q in ops if op[0] in "WA" and r and int(r.split()[1]) >= 0)
+            back = sum(1 for op, r, q in ops if (op[0] == "R" and r and int(r.split()[1]) >= 0) or op[0] == "D")
+            res.add_case(("ring",) + tuple(case), w_ok >= 3 and back >= 1)
+            v = R.judge(case, impl[ci], mod[ci], W.monitor_ring)
+            if v is None:
+                res.traces_validated += 1
+                continue
+            kind = v[0]
+
+            def fails(sub, kind=kind):
+                if not sub or not sub[0].startswith("O "):
+                    return False
+                im, mo = R.execute([sub], exe, model)
+                j = R.judge(sub, im[0], mo[0], W.monitor_ring)
+                return j is not None and j[0] == kind
+            small = C.shrink_list(case, fails, budget=60) if len(res.violations) < 2 else case
+            im, mo = R.execute([small], exe, model)
+            j = R.judge(small, im[0], mo[0], W.monitor_ring) or v
+            res.violation(j[0], j[1], {"stage": "ring", "script": small, "shrunk_from_ops": len(case),
+                                       "impl_out": [l[:300] for l in im[0][0]], "model_out": [l[:300] for l in mo[0][0]],
+                                       "detail": j[2], "replay_cmd": "./check C11 --replay <this file>"})
+            if len(res.violations) >= 6:
+                stop = True
+                break
+        del impl, mod
+        R.cleanup_shm()
+        if stop:
             break
-    R.cleanup_shm()
 
     # ---------------------------------------------------------------- blackbox scripts
-    bcases = bb_corpus()
-    kinds["bb_corpus"] = len(bcases)
-    for i in range(n_bb):
-        if i % 6 == 5:
-            nlogs = rng.choice([300, 500])
-            kinds["bb_long"] += 1
-        else:
-            nlogs = rng.choice([10, 40, 90, 150])
-            kinds["bb_random"] += 1
-        bcases.append(W.gen_bb_case(rng, nlogs))
-    bimpl, bmod = W.execute_bb(bcases, bbexe, model)
-    maxlines = {}
-    for ci, case in enumerate(bcases):
-        ops = W.parse_bb(bimpl[ci][0])
-        nlog = sum(1 for o in ops if o["op"] == "L" and o["c"] is not None)
-        nback = sum(len(o["k"]) for o in ops if o["op"] == "D")
-        stats["bb_log_calls"] += nlog
-        stats["bb_fallback_notices"] += sum(1 for o in ops if o["op"] == "L" and len(o["s"]) > 1)
-        stats["bb_dumps"] += sum(1 for o in ops if o["op"] == "D")
-        stats["bb_records_read_back"] += nback
-        stats["bb_gave_up_oversize"] += sum(1 for o in ops if o["op"] == "L" and o["a"] and o["a"][1] != 0)
-        ml = case[0].split()[2]
-        maxlines[ml] = maxlines.get(ml, 0) + 1
-        res.add_case(("bb",) + tuple(case), nlog >= 5 and nback >= 1)
-        v = W.judge_bb(bimpl[ci], bmod[ci])
-        if v is None:
-            res.traces_validated += 1
-            continue
-        kind = v[0]
+    bcorpus = bb_corpus()
+    kinds["bb_corpus"] = len(bcorpus)
+    samples += [{"script": [l[:120] for l in c[:10]]} for c in bcorpus[:1]]
 
-        def bfails(sub, kind=kind):
-            if not sub or not sub[0].startswith("B "):
-                return False
-            im, mo = W.execute_bb([sub], bbexe, model)
-            j = W.judge_bb(im[0], mo[0])
-            return j is not None and j[0] == kind
-        small = C.shrink_list(case, bfails, budget=50) if len(res.violations) < 2 else case
-        im, mo = W.execute_bb([small], bbexe, model)
-        j = W.judge_bb(im[0], mo[0]) or v
-        res.violation(j[0], j[1], {"stage": "bb", "script": small, "shrunk_from_ops": len(case),
-                                   "impl_out": [l[:200] for l in im[0][0]][-60:], "model_out": [l[:200] for l in mo[0][0]][-60:],
-                                   "detail": j[2], "replay_cmd": "./check C11 --replay <this file>"})
-        if len(res.violations) >= 8:
+    def bb_batches():
+        batch = list(bcorpus)
+        for i in range(n_bb):
+            if i % 6 == 5:
+                nlogs = rng.choice([300, 500])
+                kinds["bb_long"] += 1
+            else:
+                nlogs = rng.choice([10, 40, 90, 150])
+                kinds["bb_random"] += 1
+            batch.append(W.gen_bb_case(rng, nlogs))
+            if len(batch) >= BATCH_BB:
+                yield batch
+                batch = []
+        if batch:
+            yield batch
+
+    stop = False
+    for bi, bcases in enumerate(bb_batches()):
+        if bi == 0:
+            samples += [{"script": [l[:120] for l in c[:10]]} for c in bcases[len(bcorpus):len(bcorpus) + 2]]
+        bimpl, bmod = W.execute_bb(bcases, bbexe, model)
+        for ci, case in enumerate(bcases):
+            ops = W.parse_bb(bimpl[ci][0])
+            nlog = sum(1 for o in ops if o["op"] == "L" and o["c"] is not None)
+            nback = sum(len(o["k"]) for o in ops if o["op"] == "D")
+            stats["bb_log_calls"] += nlog
+            stats["bb_fallback_notices"] += sum(1 for o in ops if o["op"] == "L" and len(o["s"]) > 1)
+            stats["bb_dumps"] += sum(1 for o in ops if o["op"] == "D")
+            stats["bb_records_read_back"] += nback
+            stats["bb_gave_up_oversize"] += sum(1 for o in ops if o["op"] == "L" and o["a"] and o["a"][1] != 0)
+            ml = case[0].split()[2]
+            maxlines[ml] = maxlines.get(ml, 0) + 1
+            res.add_case(("bb",) + tuple(case), nlog >= 5 and nback >= 1)
+            v = W.judge_bb(bimpl[ci], bmod[ci])
+            if v is None:
+                res.traces_validated += 1
+                continue
+            kind = v[0]
+
+            def bfails(sub, kind=kind):
+                if not sub or not sub[0].startswith("B "):
+                    return False
+                im, mo = W.execute_bb([sub], bbexe, model)
+                j = W.judge_bb(im[0], mo[0])
+                return j is not None and j[0] == kind
+            small = C.shrink_list(case, bfails, budget=50) if len(res.violations) < 2 else case
+            im, mo = W.execute_bb([small], bbexe, model)
+            j = W.judge_bb(im[0], mo[0]) or v
+            res.violation(j[0], j[1], {"stage": "bb", "script": small, "shrunk_from_ops": len(case),
+                                       "impl_out": [l[:200] for l in im[0][0]][-60:], "model_out": [l[:200] for l in mo[0][0]][-60:],
+                                       "detail": j[2], "replay_cmd": "./check C11 --replay <this file>"})
+            if len(res.violations) >= 8:
+                stop = True
+                break
+        del bimpl, bmod
+        if stop:
             break
 
     res.rule = ("ring: scripts over open(S, OVERWRITE, sem|nosem) / write / alloc+commit(reserve >= commit) / read(n) / peek / "
@@ -234,7 +271,7 @@ def run(ctx):
                 "the line limit, tiny, long; plain text, %s and %d formats) with dumps at random points and at the end. "
                 "A ring case is non-trivial when >= 3 writes succeed and the contents are read back at least once; a bb "
                 "case when >= 5 records are stored and >= 1 record is read back from a dump; distinct = distinct scripts")
-    res.samples = [{"script": [l[:120] for l in c[:10]]} for c in rcases[:1] + rcases[n_rc:n_rc + 2] + bcases[:1] + bcases[-2:]]
+    res.samples = samples
     res.extra = {"case_kinds": kinds, "operation_outcomes": stats, "requested_size_classes": sizes,
                  "bb_max_line_length_classes": maxlines,
                  "monitor": "independent Python monitors stating C11 over the implementation log (vlib/rbow.py: monitor_ring, "
